@@ -124,38 +124,38 @@ def r02d(ctx, rep):
     rep.rule("R02d", "bindings do not leak to siblings: find_free_symbols scans each compound sub-form against a copy of "
              "the set of bound names (every path to the call of find_free_symbols_in_proc passes a clone of the incoming "
              "set), because the define/lambda arms insert the formals they meet into the set they are given.")
-    f = need(rep, "R02d", facts, ENVMOD + "find_free_symbols")
-    if f is None:
+    f0 = need(rep, "R02d", facts, ENVMOD + "find_free_symbols")
+    if f0 is None:
         return
-    calls = [(bb, t) for bb, t in f.calls() if callee(t) == ENVMOD + "find_free_symbols_in_proc"]
-    clones = [bb for bb, t in f.calls() if "HashSet" in (t.get("fnargs") or "") and callee(t).endswith("Clone>::clone")
-              or ("std::collections::HashSet" in (t.get("fnargs") or "") and "clone" in callee(t))]
-    if not calls:
-        rep.anchor_lost("R02d", "call of find_free_symbols_in_proc in find_free_symbols")
-        return
-    for i, (bb, t) in enumerate(calls):
-        # the env argument must originate from the clone, on every path
-        o = f.origin(t["args"][1]) if len(t["args"]) > 1 else None
-        from_clone = False
-        cur = o
-        for _ in range(4):
-            if cur is None:
-                break
-            if cur[0] == "call" and "clone" in callee(cur[1]):
-                from_clone = True
-                break
-            if cur[0] == "local":
-                ds = [d for d in f.defs().get(cur[1], []) if d[2] != "partial"]
-                from_clone = bool(ds) and all(d[2] == "call" and "clone" in callee(d[3]) for d in ds)
-                break
-            break
-        free = f.reach_from(0, avoid=clones)
-        ok = from_clone and bb not in free
-        (rep.ok if ok else rep.fail)("R02d", "R02d|find_free_symbols|scan-on-copy#%d" % (i + 1),
-                                     "the sub-form is scanned against a fresh copy of the bound-name set" if ok else
-                                     "find_free_symbols can scan a sub-form against the caller's own bound-name set: formals "
-                                     "inserted by an inner (define (helper p) ..) stay 'bound' for later sibling expressions, whose "
-                                     "references to an outer variable of that name are then not captured", [t["loc"]])
+    total = 0
+    for p_, f in sorted(facts.fns.items()):
+        calls = [(bb, t) for bb, t in f.calls() if callee(t) == ENVMOD + "find_free_symbols_in_proc"]
+        if not calls:
+            continue
+        clones = [bb for bb, t in f.calls() if "HashSet" in (t.get("fnargs") or "") and callee(t).endswith("Clone>::clone")
+                  or ("std::collections::HashSet" in (t.get("fnargs") or "") and "clone" in callee(t))]
+        for i, (bb, t) in enumerate(calls):
+            total += 1
+            # the env argument must originate from the clone, on every path
+            o = f.origin(t["args"][1]) if len(t["args"]) > 1 else None
+            from_clone = False
+            cur = o
+            if cur is not None:
+                if cur[0] == "call" and "clone" in callee(cur[1]):
+                    from_clone = True
+                elif cur[0] == "local":
+                    ds = [d for d in f.defs().get(cur[1], []) if d[2] != "partial"]
+                    from_clone = bool(ds) and all(d[2] == "call" and "clone" in callee(d[3]) for d in ds)
+            free = f.reach_from(0, avoid=clones)
+            ok = from_clone and bb not in free
+            (rep.ok if ok else rep.fail)("R02d", "R02d|%s|scan-on-copy#%d" % (f.short.rsplit("::", 1)[-1], i + 1),
+                                         "the sub-form is scanned against a fresh copy of the bound-name set" if ok else
+                                         "%s hands find_free_symbols_in_proc its caller's own bound-name set: the define/lambda arms "
+                                         "insert the formals they meet into the set they are given, so formals of an inner lambda stay "
+                                         "'bound' for sibling expressions (operands of ((lambda (x) ..) init), later body forms), whose "
+                                         "references to an outer variable of that name are then not captured" % f.short, [t["loc"]])
+    if not total:
+        rep.anchor_lost("R02d", "call of find_free_symbols_in_proc")
 
 
 def r02e(ctx, rep):
